@@ -227,6 +227,9 @@ def family_basic(tier='quick', seed=0, dead_ends=False):
     # two states, state-dependent action sets, explicit absorbing
     F.append(Skel('s2-explicit', ['s', 'g'], {'s': ('a', 'b'), 'g': ('a',)},
                   {('s', 'a'): ('s', 'g'), ('s', 'b'): ('g',), ('g', 'a'): ('g',)}, absorbing=['g'], init=['s']))
+    # falsy ACTION labels (0 is a legal action; `x or default` idioms hide here), the falsy one is not first in the state's action order
+    F.append(Skel('s2-falsy-actions', ['s', 'g'], {'s': (1, 0), 'g': (0,)},
+                  {('s', 0): ('s', 'g'), ('s', 1): ('g',), ('g', 0): ('g',)}, absorbing=['g'], init=['s']))
     # three states, stochastic branching, implicit absorbing goal, two initial states, action only in some states
     F.append(Skel('s3-branch', [0, 1, 2], {0: ('x', 'y'), 1: ('y',), 2: ('x',)},
                   {(0, 'x'): (0, 1), (0, 'y'): (1, 2), (1, 'y'): (0, 2), (2, 'x'): (2,)}, init=[0, 1]))
